@@ -152,7 +152,7 @@ def setup(ctx):
     ctx.see("tapped_pseudoinverse_definers", sorted(c.__name__ for c in owners))
 
 
-KINDS2 = tx.HOMOG + tx.EXTRA_HOMOG + ["ThinPlateSplines", "PiecewiseAffine", "PythonPWA", "tcoords", "PWA_trimesh_target", "PWA_mirrored_target", "TPS_large_unit", "TPS_small_unit", "TPS_pixel_integers"]
+KINDS2 = tx.HOMOG + tx.EXTRA_HOMOG + ["ThinPlateSplines", "PiecewiseAffine", "PythonPWA", "tcoords", "PWA_trimesh_target", "PWA_mirrored_target", "TPS_large_unit", "TPS_small_unit", "TPS_pixel_integers", "PWA_integer_source"]
 KINDS3 = tx.HOMOG + tx.EXTRA_HOMOG + ["tcoords3"]
 
 
@@ -274,6 +274,23 @@ def w_inverse(ctx, rng, i):
         else:
             ctx.bump("tps_inverse_near_singular_floor_not_judged")
         opt = dt
+    elif kind == "PWA_integer_source":
+        # the source landmarks are pixel positions in a compact integer type (the inverse warp has them as its target)
+        from menpo.transform.piecewiseaffine.base import PythonPWA, CachedPWA
+        s, tg = tx.pwa_pair(rng)
+        udt = [np.uint16, np.int16, np.int32, np.uint8][rng.integers(0, 4)]
+        span_ = float(np.ptp(s.points, axis=0).max())
+        kk_ = (200.0 if udt is np.uint8 else float(rng.uniform(300, 3000))) / max(span_, 1e-9)
+        pu_ = np.round((s.points - s.points.min(0)) * kk_ + 3)
+        tl_ = np.asarray(s.trilist)
+        a2_, b2_ = gen.tri_area2(s.points, tl_), gen.tri_area2(pu_, tl_)
+        if not (pu_.max() < np.iinfo(udt).max and (np.sign(a2_) == np.sign(b2_)).all() and np.abs(b2_).min() > 4.0):
+            ctx.count_case((kind, d, "rounding_folds_the_mesh"), nontrivial=False)
+            return
+        cls = [PythonPWA, CachedPWA][rng.integers(0, 2)]
+        t = cls(ms.TriMesh(pu_.astype(udt), trilist=tl_), tg)
+        inv = t.pseudoinverse()
+        opt = np.dtype(udt).name
     elif kind == "PWA_trimesh_target":
         s, tg = tx.pwa_pair(rng)
         # the target handed over as a TriMesh that carries its own (different) triangulation
